@@ -335,6 +335,12 @@ def composites(shape, kids, kids_of):
     out.append((['call', ['fn', 'pack'], [], {'kw': {'T': []}}], 'any'))
     out.append((['call', ['fn', 'pack'], [{'list': [{'T': []}, {'lit': 1}]}, {'tuple': [{'spec': ['fn', 'ident']}]}], {}], 'any'))
     out.append((['call', ['fn', 'raise'], [], {}], 'err'))
+    # keyword values that are containers HOLDING specs (no keyword value is a spec itself), next to constants
+    out.append((['call', ['fn', 'pack'], [], {'k': {'list': [{'T': []}]}, 'c': {'lit': 5}}], 'any'))
+    out.append((['call', ['fn', 'pack'], [], {'k': {'tuple': [{'lit': 1}, {'spec': ['fn', 'ident']}]}}], 'any'))
+    out.append((['call', ['fn', 'pack'], [], {'k': {'dict': [['v', {'T': []}]]}, 'j': {'list': [{'list': [{'T': []}]}]}}], 'any'))
+    out.append((['call', ['fn', 'pack'], [{'lit': 0}], {'k': {'list': [{'lit': 'only-constants'}]}}], 'any'))
+    out.append((['call', ['fn', 'pack'], [{'dict': [['v', {'list': [{'T': []}]}]]}], {}], 'any'))
     for t, rs in kids[:CAP['misc']]:
         out.append((['call', ['fn', 'pack'], [{'spec': t}], {'z': {'lit': 'path'}}], 'any'))
         out.append((['invoke', ['fn', 'pack'], [['S', [t], {}]]], 'any'))
@@ -579,10 +585,66 @@ def run_reuse(case):
     return R(None, template + ':' + res[0][0], nontrivial=res[0][0] == 'ok', steps=2, tags={name, template})
 
 
+# ---------------------------------------------------------------------------
+# Invoke builders are values: deriving a new spec from one (or evaluating one) never changes what another one means
+
+BUILDER_OPS = [
+    ('constants', lambda inv: inv.constants(x='c1')), ('constants', lambda inv: inv.constants(x='c2', y='cy')),
+    ('specs', lambda inv: inv.specs(x=T)), ('specs', lambda inv: inv.specs(y=(T, _inc))),
+    ('constants', lambda inv: inv.constants(7)), ('specs', lambda inv: inv.specs(T)),
+    ('star', lambda inv: inv.star(kwargs=Val({'x': 'star'}))), ('star', lambda inv: inv.star(args=Val([8]))),
+]
+
+
+def run_builders(case):
+    events, eval_early = case
+    nodes = [Invoke(_pack)]
+    chains = [[]]
+    early = []
+    for parent, op in events:
+        if eval_early:
+            early.append(repr(glom(1, nodes[parent])))
+        nodes.append(BUILDER_OPS[op][1](nodes[parent]))
+        chains.append(chains[parent] + [op])
+        if eval_early:
+            early.append(repr(glom(2, nodes[-1])))
+    for i, (node, chain) in enumerate(zip(nodes, chains)):
+        fresh = Invoke(_pack)
+        for op in chain:
+            fresh = BUILDER_OPS[op][1](fresh)
+        for target in (1, 5):
+            want, got = repr(glom(target, fresh)), repr(glom(target, node))
+            if want != got:
+                return R({'expected': 'node %d (chain %r) evaluates like a freshly built chain: %s' % (i, [BUILDER_OPS[o][0] for o in chain], want),
+                          'observed': got, 'history': repr(events), 'evaluated_between_derivations': eval_early}, 'builder')
+        if repr(node) != repr(fresh):
+            return R({'expected': 'repr %s' % repr(fresh), 'observed': repr(node), 'history': repr(events)}, 'builder-repr')
+    forks = len(set(p for p, _ in events)) < len(events)
+    return R(None, ('forked' if forks else 'linear') + (':evaluated-early' if eval_early else ''), nontrivial=True, steps=2 * len(nodes),
+             tags={BUILDER_OPS[o][0] for _, o in events} | {'forked' if forks else 'linear'})
+
+
+def gen_builders(tier):
+    import itertools
+    depth = 3
+    cases = []
+    for d in range(1, depth + 1):
+        for ops in itertools.product(range(len(BUILDER_OPS)), repeat=d):
+            for parents in itertools.product(*[range(k + 1) for k in range(d)]):
+                for eval_early in (False, True):
+                    cases.append([[[p, o] for p, o in zip(parents, ops)], eval_early])
+    return cases
+
+
 def subs(tier, only=None):
     from ..engine import fast_tracebacks
     fast_tracebacks()
     out = [
+        Sub('invoke-builders', gen_builders(tier), run_builders,
+            rule='case = derivation history of depth <= 3 over 8 builder calls (constants / specs / star, re-setting the same keyword), each applied to '
+                 'ANY earlier node (forks), optionally evaluating nodes between derivations; afterwards every node must evaluate (and print) like a '
+                 'freshly built linear chain',
+            min_nontrivial=5000, min_outcomes=4, required_tags=['constants', 'specs', 'star', 'forked', 'linear']),
         Sub('object-reuse', [[n, t] for n in REUSE_POOL for t in REUSE_TEMPLATES], run_reuse,
             rule='case = (spec with list / dict / tuple arguments, composite template): the composite built with ONE spec object at all '
                  'positions (chain steps, dict siblings, list items, call arguments, successive calls) against the same composite built from '
